@@ -365,7 +365,7 @@ def check_case(case):
     except Mismatch as m:
         raise Violation({"kind": "printed-structure-differs"}, f"printed text does not have the structure of the procedure: {m}\n{where}")
     except Violation as v:
-        raise Violation(v.sig, v.detail + "\n" + where)
+        raise Violation(dict(v.sig, last_op=acc[-1] if acc else "-"), v.detail + "\n" + where)
     # ---- round trip
     cs = callees_of(ir)
     if any(c.instr is not None for c in cs) or ir.instr is not None:
